@@ -22,6 +22,9 @@ def iter_field_selectors(names):
            'slice(0,None,2)', repr(list(range(nf))), repr([nf - 1]), repr(list(range(nf))[::2])]
     if nf >= 3:
         out += ['slice(1,%d,None)' % (nf - 1), repr([0, nf - 1]), repr([1, 2]), 'slice(1,None,2)']
+    # forms the statement does not promise (numpy integers, negative entries): an exception is acceptable, an iteration
+    # that yields something else than every box once with the fields meant is not
+    out += ['np.array([-1])', '[np.int64(-1)]', 'np.array([%d, -1])' % -nf, 'np.array([-1, 0])', '[np.int64(0), np.int64(%d)]' % (nf - 1)]
     seen = []
     for o in out:
         if o not in seen:
@@ -88,11 +91,18 @@ def run_case(case):
                         continue
                     n0 = len(obl.failed)
                     what = 'list(pck[%s][%d])' % (fs_expr, lv)
+                    lenient_f = c01.is_lenient(fsel, 0, fexp, ('one', 0))
                     try:
                         got = list(pck[fsel][lv])
-                        check_multiset(obl, ref, lv, fexp, got, what)
                     except Exception as e:
-                        obl.fail('%s raised %s: %s' % (what, type(e).__name__, str(e)[:100]))
+                        got = None
+                        if lenient_f:
+                            obl.total += 1
+                            obl.trivial += 1
+                        else:
+                            obl.fail('%s raised %s: %s' % (what, type(e).__name__, str(e)[:100]))
+                    if got is not None:
+                        check_multiset(obl, ref, lv, fexp, got, what)
                     record(obl, n0, 'C15/iterate/field=%s' % c01.classify(fs_expr, '0', '0', None, None, '').split('/')[1],
                            [fs_expr, str(lv), 'None'], 'list')
                     # the same level-data object read from and iterated repeatedly: every pass yields every box once
@@ -102,9 +112,16 @@ def run_case(case):
                         ld = pck[fsel][lv]
                         ld[0]
                         list(ld)
-                        check_multiset(obl, ref, lv, fexp, list(ld), what)
+                        again = list(ld)
                     except Exception as e:
-                        obl.fail('%s raised %s: %s' % (what, type(e).__name__, str(e)[:100]))
+                        again = None
+                        if lenient_f:
+                            obl.total += 1
+                            obl.trivial += 1
+                        else:
+                            obl.fail('%s raised %s: %s' % (what, type(e).__name__, str(e)[:100]))
+                    if again is not None:
+                        check_multiset(obl, ref, lv, fexp, again, what)
                     if len(obl.failed) > n0 and 'C15/iterate-again' not in viol:
                         viol['C15/iterate-again'] = {'signature': 'C15/iterate-again', 'what': obl.failed[n0][0], 'call': [fs_expr, str(lv), 'None'], 'mode': 'list', 'retain': True}
                     # on-demand iterator
